@@ -20,6 +20,7 @@ func VfC05_OneDirection() {
 	var log []string
 	src := &vfConn{name: "src", failAt: -1, slowWriteAt: -1, log: &log}
 	dst := &vfConn{name: "dst", failAt: -1, slowWriteAt: -1, log: &log}
+	src.checkDeadline = true
 	if nd.Bool("receiver-stalls") {
 		dst.slowWriteAt = nd.Concrete(nd.IntRange("slowat", 0, 1))
 	}
